@@ -127,7 +127,7 @@ func runC09(c *ctx) {
 		c.emit("cookiedec", "value", hx(v), "accepted", accepted, "panicked", panicked)
 	}
 	// (iii) through the router
-	s := newSut(sutOpts{sidRequired: true})
+	s := newSut(sutOpts{sidRequired: true, forwardAuth: true})
 	defer s.close()
 	rp := s.replica("A")
 	base := "http://wonderwall"
@@ -177,8 +177,8 @@ func runC09(c *ctx) {
 	ttlA := s.mr.TTL(ta.Key())
 	var restore func()
 	probe := func(name, ck string, what string) {
-		for _, ep := range []string{"/some/page", "/oauth2/session", "/oauth2/session/refresh", "/oauth2/logout/local"} {
-			if ep == "/oauth2/logout/local" && name == "own" {
+		for _, ep := range []string{"/some/page", "/oauth2/session", "/oauth2/session/refresh", "/oauth2/session/forwardauth", "/oauth2/logout", "/oauth2/logout/local"} {
+			if (ep == "/oauth2/logout/local" || ep == "/oauth2/logout") && name == "own" {
 				continue
 			}
 			br := newBrowser()
@@ -195,7 +195,7 @@ func runC09(c *ctx) {
 					auth = true
 				}
 			}
-			if ep == "/oauth2/logout/local" && restore != nil {
+			if (ep == "/oauth2/logout/local" || ep == "/oauth2/logout") && restore != nil {
 				restore() // a local logout may have removed the entry: put it back so that the next variant is probed against a live session
 			}
 			c.count("tamper:" + what)
